@@ -43,6 +43,39 @@ class C16(Prop):
                         ops.append(['process', k])
             out.append({'op': 'c16', 'docs': docs, 'ops': ops})
         yield 'histories', out
+        # long-lived instances: one or two parser objects serving hundreds of requests, most of them documents
+        # that are refused somewhere INSIDE nested namespaces - state that leaks on the error path adds up
+        soak = []
+        for _ in range(4 if tier == 'quick' else scale(60)):
+            docs = []
+            for _i in range(6):
+                depth = rng.randint(1, 3)
+                inner = M.gen_file(rng, maxdepth=1, n=rng.randint(1, 3))
+                node = inner
+                for lvl in range(depth):
+                    node = [{'k': 'namespace', 'name': [rng.choice(['A', 'B', 'N'])], 'elems': node}]
+                d = M.enc_root(node)
+                if _i % 3 != 0:
+                    # break the innermost element
+                    cur = d
+                    for lvl in range(depth):
+                        els = cur['elements'] if isinstance(cur, dict) and 'elements' in cur else cur
+                        els = els if isinstance(els, list) else els.get('elements', [])
+                        nss = [e for e in els if isinstance(e, dict) and e.get('<class>') == 'namespace']
+                        if not nss:
+                            break
+                        cur = nss[0]
+                    els = cur.get('elements', []) if isinstance(cur, dict) else []
+                    if els and isinstance(els[-1], dict):
+                        els[-1].pop('name', None)
+                docs.append(d)
+            ops = [['new', 0, None], ['new', 1, 0]]
+            for _i in range(rng.randint(150, 260)):
+                k = rng.choice([0, 0, 0, 1])
+                ops.append(['load', k, rng.randrange(len(docs))])
+                ops.append(['process', k])
+            soak.append({'op': 'c16', 'docs': docs, 'ops': ops})
+        yield 'long-lived', soak
 
     def impl(self, case):
         use_repo_src()
